@@ -81,3 +81,37 @@ Section RT.
     destruct (f_wcond e); destruct (o (f_name e)); try reflexivity; discriminate.
   Qed.
 End RT.
+
+(** ** equal objects have equal hashes *)
+(* An object maps attribute names to values; __eq__ compares the attributes [eqa] with the values' own
+   equality [veq] (which, for a map, ignores the order in which it was filled); __hash__ hashes a tuple of
+   projections.  Python's contract for the built-in values stored in the attributes is a hypothesis:
+   equal values have equal hashes, also after tuple(...) of equal lists and after tuple(sorted(items))
+   of equal maps.  Nothing is assumed about the items in insertion order. *)
+Section HashEq.
+  Variables (V : Type) (veq : V -> V -> Prop).
+  Variables (h_plain h_tuple h_sorted h_items : V -> nat).
+  Hypothesis plain_resp : forall a b, veq a b -> h_plain a = h_plain b.
+  Hypothesis tuple_resp : forall a b, veq a b -> h_tuple a = h_tuple b.
+  Hypothesis sorted_resp : forall a b, veq a b -> h_sorted a = h_sorted b.
+
+  Definition proj (o : str -> V) (p : str * hkind) : nat :=
+    match snd p with
+    | HPlain => h_plain (o (fst p)) | HTuple => h_tuple (o (fst p))
+    | HSortedItems => h_sorted (o (fst p)) | HItems => h_items (o (fst p))
+    end.
+
+  Theorem equal_objects_hash_equally : forall c o1 o2,
+    hash_ok c = true ->
+    (forall a, In a (fst c) -> veq (o1 a) (o2 a)) ->
+    map (proj o1) (snd c) = map (proj o2) (snd c).
+  Proof.
+    intros [eqa h] o1 o2 Hok Heq. simpl in *. unfold hash_ok in Hok. simpl in Hok.
+    rewrite forallb_forall in Hok. apply map_ext_in. intros [a k] Hin.
+    specialize (Hok (a, k) Hin). unfold hash_entry_ok in Hok. simpl in Hok.
+    apply andb_true_iff in Hok. destruct Hok as [Hm Hk].
+    apply existsb_exists in Hm. destruct Hm as [a' [Ha' E]]. apply str_eqb_eq in E. subst a'.
+    specialize (Heq a Ha'). unfold proj. simpl.
+    destruct k; [apply plain_resp | apply tuple_resp | apply sorted_resp | discriminate]; exact Heq.
+  Qed.
+End HashEq.
